@@ -63,12 +63,13 @@ def plan(tier, seed):
     """TLC design runs: name -> (module, kwargs, exhaustive)"""
     jobs = collections.OrderedDict()
     jobs['tails'] = ('TailMaps', dict(cfg='TailMaps.cfg', workers=2), True)
-    jobs['rewrite'] = ('ChainRewrite', dict(cfg='ChainRewrite.cfg', coverage=True, workers=4), True)
+    jobs['rewrite'] = ('ChainRewrite', dict(cfg='ChainRewrite.cfg', workers=3), True)
+    jobs['rewrite-cov'] = ('ChainRewrite', dict(cfg='ChainRewrite_cov.cfg', coverage=True, workers=2), True)
     jobs['rewrite-mutant'] = ('ChainRewrite', dict(cfg='ChainRewrite_mutant.cfg', workers=2), True)
-    jobs['seq'] = ('SeqNesting', dict(cfg='SeqNesting.cfg', workers=6), True)
+    jobs['seq'] = ('SeqNesting', dict(cfg='SeqNesting.cfg', workers=4), True)
     if tier == 'quick':
-        jobs['rewrite-len3'] = ('ChainRewrite', dict(cfg='ChainRewrite_len3.cfg', workers=4), True)
-        jobs['seq-sim'] = ('SeqNesting', dict(cfg='SeqNesting_sim.cfg', simulate=dict(num=25), depth=8, seed=seed, workers=4, timeout=600), False)
+        jobs['rewrite-len3'] = ('ChainRewrite', dict(cfg='ChainRewrite_len3.cfg', workers=3), True)
+        jobs['seq-sim'] = ('SeqNesting', dict(cfg='SeqNesting_sim.cfg', simulate=dict(num=10), depth=8, seed=seed, workers=2, timeout=600), False)
         muts = [LOOKUP_MUTANTS[seed % len(LOOKUP_MUTANTS)]]
     else:
         jobs['rewrite-thorough'] = ('ChainRewrite', dict(cfg='ChainRewrite_thorough.cfg', workers=8, timeout=1500, heap='8g'), True)
@@ -102,13 +103,20 @@ def run(rep):
         '2 (<= 3 for dimension <= 2)' if quick else 3, '' if quick else ', <= 6 items by simulation')
     rep.constants['SeqNesting'] = 'bases line/square/cube (periodic variants), Index with simplex/mixed/prism references; <= {} topology operations, <= {} wrappers exhaustively; simulation to 2 operations + 4 wrappers; <= 16 elements; tails of <= 2 items'.format(*((1, 1) if quick else (2, 2)))
 
-    # ---- all TLC design runs concurrently; the table export and the trace recording meanwhile
-    with concurrent.futures.ThreadPoolExecutor(max_workers=len(jobs)) as pool:
+    # ---- all TLC runs concurrently; the table export and the recording of real topologies happen meanwhile
+    with concurrent.futures.ThreadPoolExecutor(max_workers=len(jobs) + 3) as pool:
         futures = [pool.submit(_run_job, item) for item in jobs.items()]
-        table = c11_chain.tables(rep)
-        rep.lap('tables')
+        table, tpath = c11_chain.export_to_file()
+        ftab = pool.submit(c11_chain.run_tables, tpath)
+        seqcases = c11_trace.seq_cases(rep, rng)
+        fseq = pool.submit(c11_trace.validate, seqcases, 'trace-seq')
+        loccases, locfails = c11_trace.locate_cases(rep, rng)
+        floc = pool.submit(c11_trace.validate, loccases, 'trace-locate')
+        rep.lap('tables exported, real topologies recorded')
         results = dict(f.result() for f in futures)
-    rep.lap('tlc design runs')
+        c11_chain.judge_tables(rep, table, ftab.result())
+        (v1, r1), (v2, r2) = fseq.result(), floc.result()
+    rep.lap('tlc runs')
 
     # ---- design-level verdicts
     for name, res in results.items():
@@ -122,7 +130,7 @@ def run(rep):
         rep.add_tlc(res, exhaustive=exhaustive)
         if res.violated:
             raise RuntimeError('design spec {} violates {}:\n{}'.format(name, res.violated, '\n'.join(res.error_trace[:60])))
-    cov = results['rewrite'].coverage
+    cov = results['rewrite-cov'].coverage
     missing = [a for a in CHAIN_ACTIONS if cov.get(a, (0, 0))[1] == 0]
     if missing:
         raise RuntimeError('ChainRewrite: actions never taken: {}'.format(missing))
@@ -202,15 +210,9 @@ def run(rep):
         rep.sample(dict(nesting=c11_seq.expr_str(b['expr']), route=[h['op'] for h in b['hist']], elements=len(b['den'])))
     rep.lap('sequence replay')
 
-    # ---- C->S: real topologies
-    seqcases = c11_trace.seq_cases(rep, rng, c11_seq.TAILMAPS)
-    loccases, locfails = c11_trace.locate_cases(rep, rng)
+    # ---- C->S: real topologies (verdicts of TraceTopo)
     for f in locfails:
         rep.violation(*f)
-    with concurrent.futures.ThreadPoolExecutor(max_workers=2) as pool:
-        f1 = pool.submit(c11_trace.validate, seqcases, 'trace-seq')
-        f2 = pool.submit(c11_trace.validate, loccases, 'trace-locate')
-        (v1, r1), (v2, r2) = f1.result(), f2.result()
     for r in (r1, r2):
         if r is not None:
             rep.add_tlc(r)
